@@ -44,7 +44,7 @@ TECHNIQUE = 'runtime monitoring: metamorphic oracle (equivalent schema arrangeme
 
 XS = 'http://www.w3.org/2001/XMLSchema'
 PROLOG = ('include', 'import', 'redefine', 'override')
-TRANSFORMS = ('permute', 'split2', 'split3', 'respell', 'imports_reordered', 'rebuild', 'copy', 'pickle')
+TRANSFORMS = ('permute', 'split2', 'split3', 'respell', 'imports_reordered', 'composition_reordered', 'rebuild', 'copy', 'pickle')
 
 
 def plan(tier, seed):
@@ -187,10 +187,12 @@ def respell(data, rng, directory):
     return out if changed[0] else None
 
 
-def reorder_imports(data, rng):
+def reorder_imports(data, rng, kinds=('import',)):
+    """Another order of the xs:import elements (or, with kinds = import + include, of all composition elements:
+    which documents make up the schema does not depend on the order in which they are named)."""
     spans, _ = top_level_spans(data)
-    imps = [(a, b) for n, a, b in spans if n == 'import']
-    if len(imps) < 2:
+    imps = [(a, b) for n, a, b in spans if n in kinds]
+    if len(imps) < 2 or len({n for n, _, _ in spans if n in kinds}) < len(kinds):
         return None
     order = list(range(len(imps)))
     rng.shuffle(order)
@@ -353,10 +355,10 @@ def check_schema(res, xmlschema, cls, src_path, probes, rng, label, version, rou
                         f.write(new)
                     case['files'] = {'main': new.decode('utf-8', 'replace')[:20000]}
                     alt = cls(alt_path)
-                elif how == 'imports_reordered':
-                    new = reorder_imports(data, rng)
+                elif how in ('imports_reordered', 'composition_reordered'):
+                    new = reorder_imports(data, rng, ('import',) if how == 'imports_reordered' else ('import', 'include'))
                     if new is None:
-                        res.count('skip:imports_reordered:not_applicable')
+                        res.count(f'skip:{how}:not_applicable')
                         continue
                     with open(alt_path, 'wb') as f:
                         f.write(new)
@@ -586,6 +588,34 @@ COMPOSE11_PROBES = [
 ]
 
 
+# no target namespace: the main document includes D and imports a namespace whose document includes the same D as a
+# chameleon; D is then two schema documents (one per namespace) loaded from one location
+COMPOSE_CHAMELEON = {
+    'main.xsd': f'''<?xml version="1.0"?>
+<xs:schema xmlns:xs="{XS}" xmlns:x="urn:c:x">
+  <xs:include schemaLocation="d.xsd"/>
+  <xs:import namespace="urn:c:x" schemaLocation="x.xsd"/>
+  <xs:element name="root"><xs:complexType><xs:sequence>
+    <xs:element ref="item" maxOccurs="unbounded"/><xs:element ref="x:box" minOccurs="0"/>
+  </xs:sequence></xs:complexType></xs:element>
+</xs:schema>''',
+    'd.xsd': f'''<xs:schema xmlns:xs="{XS}">
+  <xs:element name="item" type="Code"/>
+  <xs:simpleType name="Code"><xs:restriction base="xs:token"><xs:pattern value="[A-Z][0-9]+"/></xs:restriction></xs:simpleType>
+</xs:schema>''',
+    'x.xsd': f'''<xs:schema xmlns:xs="{XS}" targetNamespace="urn:c:x" xmlns:x="urn:c:x" elementFormDefault="qualified">
+  <xs:include schemaLocation="d.xsd"/>
+  <xs:element name="box"><xs:complexType><xs:sequence><xs:element ref="x:item" maxOccurs="2"/></xs:sequence></xs:complexType></xs:element>
+</xs:schema>''',
+}
+COMPOSE_CHAMELEON_PROBES = [
+    '<root><item>A1</item><item>B22</item><x:box xmlns:x="urn:c:x"><x:item>C3</x:item></x:box></root>',
+    '<root><item>a1</item><x:box xmlns:x="urn:c:x"><x:item>C3</x:item><x:item>4</x:item><x:item>D5</x:item></x:box></root>',
+    '<x:item xmlns:x="urn:c:x">Z9</x:item>',
+    '<item>nope</item>',
+]
+
+
 def run_compose(spec, res):
     """A composition with imports, an include and forward references of every kind."""
     xmlschema = env.activate_repo()
@@ -599,6 +629,16 @@ def run_compose(spec, res):
             with open(os.path.join(d, name), 'w') as f:
                 f.write(text)
         check_schema(res, xmlschema, cls, os.path.join(d, 'main.xsd'), COMPOSE_PROBES, rng, 'compose', version,
+                     spec['rounds'], order_probe)
+        shutil.rmtree(scratch, ignore_errors=True)
+    for version, cls in (('1.0', xmlschema.XMLSchema10), ('1.1', xmlschema.XMLSchema11)):
+        scratch = tempfile.mkdtemp(prefix='c09-')
+        d = os.path.join(scratch, 'chameleon')
+        os.makedirs(d)
+        for name, text in COMPOSE_CHAMELEON.items():
+            with open(os.path.join(d, name), 'w') as f:
+                f.write(text)
+        check_schema(res, xmlschema, cls, os.path.join(d, 'main.xsd'), COMPOSE_CHAMELEON_PROBES, rng, 'chameleon', version,
                      spec['rounds'], order_probe)
         shutil.rmtree(scratch, ignore_errors=True)
     scratch = tempfile.mkdtemp(prefix='c09-')
